@@ -1,7 +1,4 @@
 \* behaviours of Scopes.tla = programs; bounds and feature switches come from IOEnv.PARAMS
 SPECIFICATION Spec
-INVARIANT UsesBound
-INVARIANT DeclsDistinct
-INVARIANT UsesVisible
-INVARIANT PendingOnlyInClass
+INVARIANT SpecInv
 INVARIANT Emit
